@@ -285,6 +285,29 @@ func backrefReturnRules() lexer.Rules {
 	}
 }
 
+// quantifiedBackrefRules: back-references under a quantifier and to a group that may be empty
+// (Rust-style raw strings r#"..."#): whether the expanded pattern compiles depends on the input.
+func quantifiedBackrefRules() lexer.Rules {
+	return lexer.Rules{
+		"Root": {
+			{Name: "RawStart", Pattern: `r(#*)"`, Action: lexer.Push("Raw")},
+			{Name: "Open", Pattern: `(=*)\[`, Action: lexer.Push("In")},
+			{Name: "Word", Pattern: `\w+`},
+			{Name: "space", Pattern: `\s+`},
+		},
+		"Raw": {
+			{Name: "RawEnd", Pattern: `"\1`, Action: lexer.Pop()},
+			{Name: "RawText", Pattern: `[^"]+`},
+			{Name: "Quote", Pattern: `"`},
+		},
+		"In": {
+			{Name: "Close", Pattern: `\]\1`, Action: lexer.Pop()},
+			{Name: "Run", Pattern: `\1+`},
+			{Name: "Text", Pattern: `[^\]=]+`},
+		},
+	}
+}
+
 func mustRules(r lexer.Rules) lexer.Definition {
 	d, err := lexer.New(r)
 	if err != nil {
@@ -334,6 +357,8 @@ var coreLexDefs = []*lexDef{
 		corpus: []string{"a <<EOF b c EOF d e", "<<EOF x", "EOF <<EOF EOF EOF", ""}},
 	{name: "backref-return", rules: backrefReturnRules, build: func() lexer.Definition { return mustRules(backrefReturnRules()) },
 		corpus: []string{"<<END <b></b> END", "a <<X w <i></i> <j> y X b", "<<E <b></c> E", "<<E <b>", ""}},
+	{name: "quantified-backref", rules: quantifiedBackrefRules, build: func() lexer.Definition { return mustRules(quantifiedBackrefRules()) },
+		corpus: []string{`a r#"raw "quoted" text"# b r"plain" c`, `==[ x == y ]== z`, `[ empty group ] w`, `r##"never closed"#`, `=[ a = b`, ""}},
 	{name: "fence", rules: fenceRules, build: func() lexer.Definition { return mustRules(fenceRules()) },
 		corpus: []string{"a *** code * here *** b", "... x . y ... ++ p + q ++", "$$ 1 $ 2 $$ [[ a [ b [[ (? x ( y (?", "\\\\ back \\ slash \\\\ done", "**** four **** *** open", ""}},
 	{name: "optgroup", rules: optGroupRules, build: func() lexer.Definition { return mustRules(optGroupRules()) },
